@@ -176,6 +176,10 @@ def render_func(prog, fname):
                     lines.append("    " + stmt)
         elif t == "load":
             lines.append(f"    {r} = dds.load({spell_path(it['path'], it.get('pspell'))!r})")
+        elif t == "lazy":
+            # a function-local (lazy) import of an accepted library package that nothing else imports
+            lines.append("    import lzlib.core")
+            lines.append(f"    {r} = lzlib.core.lzf()")
         elif t == "shadow":
             # a module-level helper of THIS module that has the name of a tracked variable of ANOTHER module
             lines.append(f"    {r} = {it['name']}()")
@@ -295,6 +299,14 @@ def _imports_for(prog, m):
     return lines
 
 
+def has_lazy(prog):
+    return any(it["t"] == "lazy" for f in prog["funcs"].values() for it in f["body"])
+
+
+def lazy_text(prog):
+    return ["def lzf():", f"    return ('lz', {prog.get('ext', {}).get('lz_ver', 1)!r})"]
+
+
 def shadow_names(prog, m):
     return sorted({it["name"] for fn in funcs_in(prog, m) for it in prog["funcs"][fn]["body"] if it["t"] == "shadow"})
 
@@ -342,6 +354,9 @@ def render(prog):
                     lines.extend(e["text"].split("\n"))
         lines.append("")
         files["/".join(pk + [m]) + ".py"] = "\n".join(lines)
+    if has_lazy(prog):
+        files["lzlib/__init__.py"] = "from . import core\n"
+        files["lzlib/core.py"] = "\n".join(lazy_text(prog)) + "\n"
     ext = prog.get("ext", {"EXTV": 1, "ext_ver": 1})
     for k, em in enumerate(prog.get("extmods", ["extlib"])):
         parts = em.split(".")
@@ -395,6 +410,8 @@ def accepted_names(prog):
     names += [f"decoy{i}" for i in range(prog.get("decoys", 0))]
     # further packages accepted AFTER the program's own one, e.g. a name that is a plain string prefix of it
     names += list(prog.get("accept_after", []))
+    if has_lazy(prog):
+        names.append("lzlib")       # accepted by name: accepting does not import it
     # packages nested INSIDE the program's accepted package, accepted as well (before or after it): no effect expected
     nested = list(prog.get("accept_nested", []))
     if prog.get("accept_nested_first"):
